@@ -128,6 +128,7 @@ type (
 		SignedAccumulator *SignedAccumulator
 		Events            []*Event
 		product           *big.Int
+		productFrom       uint64 // index from which product was computed
 	}
 
 	// Hash represents a SHA256 hash and has marshaling methods to/from JSON.
@@ -312,10 +313,11 @@ func (update *Update) Verify(pk *gabikeys.PublicKey) (*Accumulator, error) {
 }
 
 func (update *Update) Product(from uint64) *big.Int {
-	if update.product != nil {
+	if update.product != nil && update.productFrom == from {
 		return update.product
 	}
 	update.product = big.NewInt(1)
+	update.productFrom = from
 	if len(update.Events) == 0 {
 		return update.product
 	}
@@ -348,6 +350,7 @@ func (update *Update) Prepend(eventlist *EventList) error {
 	n.Events = append(eventlist.Events, n.Events...)
 	if eventlist.product != nil {
 		n.product.Mul(n.product, eventlist.product)
+		n.productFrom = eventlist.Events[0].Index
 	} else {
 		n.product = nil
 	}
